@@ -143,10 +143,14 @@ prop("C10", level="proof",
                 "dataclass __init__. " + _BND_NOTE, technique=_BND_TECH, explanation="external options frame: per-stage contracts + bounded pipeline check",
      roots=["ExternalImportFilter.filter", "_append_external_modules_to_module_list", "_remove_excluded_imports", "ImporteeModuleCalculator.calculate_importee_modules"],
      bounded=[_b("projects", "bounded_externals")], trusted_base=_TB)
-prop("C05", level="exploration",
-     level_text="Bounded exploration: random layer partitions (name lists, regex, mixed, unmentioned layers, modules in no layer) on graphs with prefix-named siblings; the real LayerRule "
+prop("C05", level="other",
+     level_text="Mixed. PROVED: the layer detector's treatment of same-layer pairs -- LayerRuleViolationDetector._get_realised_dependencies keeps exactly the reported pairs that cross a layer "
+                "boundary; the forbidden-import buckets are exactly those; _get_any_missing_dependencies_in_user_specified_order: the required access to 'something else' is satisfied only by an "
+                "import that leaves the layer; _append_missing_dependencies; the LayerRule ordering guards; the lowered Rule pipeline (shared with C01). The layer lookup itself "
+                "(LayerMapping.get_layer_for_module_name) enters these proofs as ONE uninterpreted function. BOUNDED: layer lookup (bisect), regex-layer replacement, grouping by layers, and the "
+                "end-to-end verdict: random layer partitions (name lists, regex, mixed, unmentioned layers, modules in no layer) on graphs with prefix-named siblings; the real LayerRule "
                 "outcome is compared with the documented layer semantics for all 12 shapes and the two 'any layer' aliases.",
-     level_note=_BND_NOTE, technique=_BND_TECH, explanation="layer rule verdicts", roots=[], bounded=[_b("layers", "bounded_layer_verdicts")], trusted_base=_TB)
+     level_note=_BND_NOTE, technique=_BND_TECH, explanation="layer rule verdicts", roots=["LayerRuleViolationDetector._get_realised_dependencies", "LayerRuleViolationDetector._get_any_missing_dependencies_in_user_specified_order", "LayerRule.based_on"], bounded=[_b("layers", "bounded_layer_verdicts")], trusted_base=_TB)
 prop("C06", level="other",
      level_text="Mixed. PROVED (string view): alias resolution and merge -- PumlParser._unify / _get_modules_by_alias / _unify_module / _get_unified_modules: the dependencies of a component "
                 "are the union over all lines naming it as dependor by alias or by name, every identifier resolved; components = declared + dependors + dependees. BOUNDED: the regex "
